@@ -35,6 +35,9 @@ def cases(tier, seed):
             nf = c["gen"].pop("nfields", 4)
             c["gen"]["names"] = gen.odd_names(random.Random(seed * 37 + i), max(3, min(nf, 8)), blanks=True, nonascii=True)
             c["odd_names"] = True
+    # scale: a box of more than a million cells, five fields (47 MB in one FAB), not at the start of its file
+    for k in range(1 if tier == "quick" else 3):
+        cs.append({"scale": "bigbox", "gen": dict(seed=seed * 3 + 5150 + k, nfields=5), "fmt": {}, "sel_seed": seed * 23 + 5150 + k, "nsel": 5})
     if tier == "thorough":
         for a in ("example_plt_2d", "example_plt_3d", "plt_eb_3d"):
             cs.append({"asset": a, "sel_seed": seed, "nsel": 3})
